@@ -12,7 +12,7 @@ import numpy as np
 from aomon.checks.c04 import build, probe_maps
 from aomon.core import digest
 from aomon.oracles import vk
-from aomon.probes import ScriptedGenerator, RecordingGenerator
+from aomon.probes import ScriptedGenerator, RecordingGenerator, ProbeNotApplicable
 
 LEVEL = "exploration"
 TECHNIQUE = "state-invariant hook around every operation of random histories on the live objects; observed-recursion stability analysis (spectral radius, Stein residual) and bounded-progress executions"
@@ -58,7 +58,11 @@ def history(ctx, aotools, variant, nreq, ps, r0, L0, extra, rng, n_ops, all_add=
     try:
         pg = ScriptedGenerator([])
         twin = build(aotools, variant, nreq, ps, r0, L0, extra, pg)
-        M, B, _ = probe_maps(ctx, twin, pg) if twin._scrn.size <= 1500 else (None, None, None)
+        try:
+            M, B, _ = probe_maps(ctx, twin, pg) if twin._scrn.size <= 1500 else (None, None, None)
+        except ProbeNotApplicable:
+            ctx.count("screens_whose_innovations_cannot_be_scripted")
+            M, B = None, None
         rec = RecordingGenerator(int(rng.integers(0, 2 ** 31)))
         scr = build(aotools, variant, nreq, ps, r0, L0, extra, rec)
     except (linalg.LinAlgError, np.linalg.LinAlgError):
@@ -199,8 +203,12 @@ def stability(ctx, aotools, nx, ps, r0, L0, ncol, rng, long_rows):
     except (linalg.LinAlgError, np.linalg.LinAlgError):
         ctx.count("constructions_raising_LinAlgError")
         return
+    try:
+        M, B, step = probe_maps(ctx, scr, g)
+    except ProbeNotApplicable:
+        ctx.count("screens_whose_innovations_cannot_be_scripted")
+        return
     ctx.count("stability_configs")
-    M, B, step = probe_maps(ctx, scr, g)
     resp = np.where(np.abs(M).max(axis=0) > 0)[0]
     depth = int(resp.max() // nx) + 1 if len(resp) else 1        # rows of the screen the recursion reads
     ctx.case("stability", key=(nx, ps, r0, L0, ncol), nontrivial=True, sample=dict(wit, rows_read=depth))
